@@ -17,6 +17,8 @@ pub struct Args {
     pub only: Option<String>,
     pub jobs: u64,
     pub profile: String,
+    /// driver mode: write the merged Acc here instead of finishing (used by the parent of a no-debug-assertions run)
+    pub accout: Option<PathBuf>,
 }
 
 impl Args {
@@ -35,6 +37,7 @@ pub fn parse_args() -> Args {
         only: None,
         jobs: std::env::var("VERIF_JOBS").ok().and_then(|s| s.parse().ok()).unwrap_or(16),
         profile: std::env::var("VERIF_PROFILE").unwrap_or_else(|_| "verif".into()),
+        accout: None,
     };
     let v: Vec<String> = std::env::args().collect();
     let mut i = 1;
@@ -55,6 +58,10 @@ pub fn parse_args() -> Args {
             }
             "--replay" => {
                 a.replay = Some(PathBuf::from(&v[i + 1]));
+                i += 1;
+            }
+            "--accout" => {
+                a.accout = Some(PathBuf::from(&v[i + 1]));
                 i += 1;
             }
             "--only" => {
@@ -210,6 +217,11 @@ pub fn main_check(spec: Spec, make: impl Fn(&Args) -> Vec<Family>, make_parts: i
     if let Some(p) = &args.replay {
         let v: Value = serde_json::from_str(&std::fs::read_to_string(p).expect("replay file")).expect("replay json");
         let r = &v["replay"];
+        if r.get("profile").and_then(|x| x.as_str()) == Some("verif-nda") && args.profile != "verif-nda" {
+            let bin = std::env::var("VERIF_NDA_BIN").expect("VERIF_NDA_BIN for a no-debug-assertions replay");
+            let st = std::process::Command::new(bin).arg("--replay").arg(p).env("VERIF_PROFILE", "verif-nda").status().expect("spawn nda replay");
+            std::process::exit(st.code().unwrap_or(2));
+        }
         if let Some(pn) = r.get("part").and_then(|x| x.as_str()) {
             let mut a2 = args.clone();
             a2.tier = r["tier"].as_str().unwrap_or(&args.tier).to_string();
@@ -307,6 +319,46 @@ pub fn main_check(spec: Spec, make: impl Fn(&Args) -> Vec<Family>, make_parts: i
             }
         }
         p.run(&args, &mut acc);
+    }
+    // ---- the same check built without debug assertions (properties that say "debug or release")
+    if args.accout.is_none() && args.profile != "verif-nda" {
+        if let Ok(bin) = std::env::var("VERIF_NDA_BIN") {
+            if std::path::Path::new(&bin).exists() {
+                let out = crate::report::verif_root().join(".work").join(format!("{}-nda-{}.json", spec.prop, std::process::id()));
+                std::fs::create_dir_all(out.parent().unwrap()).unwrap();
+                let mut c = std::process::Command::new(&bin);
+                c.arg("--tier").arg(&args.tier).arg("--accout").arg(&out).arg("--jobs").arg(args.jobs.to_string());
+                if let Some(o) = &args.only {
+                    c.arg("--only").arg(o);
+                }
+                c.env("VERIF_PROFILE", "verif-nda").env("VERIF_SEED", args.seed.to_string());
+                let st = c.status().expect("spawn no-debug-assertions build");
+                if st.code() == Some(0) {
+                    let mut a: Acc = serde_json::from_str(&std::fs::read_to_string(&out).unwrap()).unwrap();
+                    let fams = std::mem::take(&mut a.families);
+                    for (k, f) in fams {
+                        a.families.insert(format!("[no debug assertions] {}", k), f);
+                    }
+                    for (_, (_, vs)) in a.viols.iter_mut() {
+                        for v in vs.iter_mut() {
+                            v.detail = format!("[build without debug assertions] {}", v.detail);
+                            if let Some(o) = v.replay.as_object_mut() {
+                                o.insert("profile".into(), json!("verif-nda"));
+                            }
+                        }
+                    }
+                    acc.merge(a);
+                    acc.notes.push("the whole check was repeated with a build of petgraph without debug assertions (profile verif-nda); its families are prefixed".into());
+                } else {
+                    machinery.push(format!("no-debug-assertions run failed: {:?}", st.code()));
+                }
+                let _ = std::fs::remove_file(&out);
+            }
+        }
+    }
+    if let Some(out) = &args.accout {
+        std::fs::write(out, serde_json::to_string(&acc).unwrap()).unwrap();
+        std::process::exit(if machinery.is_empty() { 0 } else { 2 });
     }
     let meta = Meta {
         prop: spec.prop,
